@@ -1,9 +1,12 @@
 (* Props/C02.v -- property C02: well-formed PDFs from any producer load to their content.
    Statements only; proofs live in Proofs/XrefProofs.v, Proofs/XrefTableProofs.v, Proofs/ObjStmProofs.v.
    Claim ladder (DESIGN.md 9): rung 1 = the three structural decoders invert the specification encoders.
-   Rung 1 is complete with Proofs/ObjStmProofs.v (objstm_expand). *)
+   rung 2 = every spelling of a token that the reference writer's style denotes parses to the denoted value
+   (proved for fillers, names, hexadecimal strings, integers; literal strings and reals: see notes/C02.md);
+   rung 3 = whole files (C02_full below, stated, not proved: it needs Model/Loader.v). *)
 From LV Require Import Base.Bytes Base.Sx Model.Obj Model.Writer Model.Parser Model.Xref Spec.XrefSpec
-  Model.ObjStm Proofs.LexProofs Proofs.XrefProofs Proofs.XrefTableProofs Proofs.ObjStmProofs.
+  Model.ObjStm Proofs.LexProofs Proofs.XrefProofs Proofs.XrefTableProofs Proofs.ObjStmProofs
+  Spec.RefWriter Proofs.SpellingProofs.
 Local Open Scope N_scope.
 
 (* (1) Cross-reference streams.  For ALL field widths (0 = field absent, any positive width, not all three
@@ -81,6 +84,49 @@ Theorem C02_objstm_expand :
     OsOk (fold_left (fun m it => insert m (oi_num it, 0) (denote it)) items []).
 Proof. exact objstm_expand. Qed.
 
+
+(* ---------------------------------------------------------------------------------------------
+   Rung 2: any spelling.  The left-hand sides are the REFERENCE WRITER's spellings (Spec/RefWriter.v), the
+   functions applied to them are the parser model's (Model/Parser.v).
+   --------------------------------------------------------------------------------------------- *)
+
+(* any filler (the six white-space characters, comments with any text and any end-of-line marker, in any
+   number and order) in front of anything is skipped by `space` *)
+Theorem C02_filler_any :
+  forall (f : filler) rest, space (fill_bytes f ++ rest) = space rest.
+Proof. exact filler_skipped. Qed.
+
+(* a name with any subset of its bytes written #xx (hex digits in either case) and the others raw *)
+Theorem C02_name_any_spelling :
+  forall n (st : nstyle) rest, name_follow rest = true -> name (w_name n st ++ rest) = POk n rest.
+Proof. exact name_any_spelling. Qed.
+
+(* a hexadecimal string with white-space before any digit and before '>', either case per digit, and the
+   final digit left out when it is 0 *)
+Theorem C02_hex_string_any_spelling :
+  forall s (st : list hpos) (tw : list N) (dl : bool) rest,
+    hexadecimal_string (w_hexstr s st tw dl ++ rest) = POk s rest.
+Proof. exact hex_string_any_spelling. Qed.
+
+(* an integer with an optional plus sign and any number of leading zeros *)
+Theorem C02_integer_any_spelling :
+  forall z (plus : bool) (lz : nat) rest,
+    in_i64 z = true -> starts_with is_dec_digit rest = false ->
+    integer (w_int z plus lz ++ rest) = POk z rest.
+Proof. exact integer_any_spelling. Qed.
+
+(* non-vacuity of the spellings: a name, a hexadecimal string and an integer in unusual dress *)
+Theorem C02_example_spellings :
+  w_name (bs "A b#") [NHex false true; NPlain; NPlain; NPlain] = bs "/#41#20b#23" /\
+  name (bs "/#41#20b#23" ++ bs " 1") = POk (bs "A b#") (bs " 1") /\
+  w_hexstr [x4a; xb0] [{| h_ws1 := [1]; h_u1 := false; h_ws2 := [0; 5]; h_u2 := true |}] [3] true =
+    x3c :: x0a :: bs "4" ++ [x20; x00] ++ bs "AB" ++ [x09; x3e] /\
+  hexadecimal_string (w_hexstr [x4a; xb0] [{| h_ws1 := [1]; h_u1 := false; h_ws2 := [0; 5]; h_u2 := true |}] [3] true)
+    = POk [x4a; xb0] [] /\
+  w_int 42 true 2 = bs "+0042" /\ integer (bs "+0042" ++ bs "]") = POk 42%Z (bs "]") /\
+  space (fill_bytes [FWs 5; FComment (bs "endobj") ECR; FWs 1; FComment [] ECRLF] ++ bs "/X") = bs "/X".
+Proof. repeat split; vm_compute; reflexivity. Qed.
+
 (* ---------- non-vacuity ---------- *)
 Definition ex_secs : xsections := [(0, [SFree 0 65535; SInUse 17 0]); (5, [SComp 3 1; SInUse 70000 2])].
 Definition ex_dict : dict :=
@@ -143,6 +189,11 @@ Print Assumptions C02_table_lookup.
 Print Assumptions C02_table_lookup_none.
 Print Assumptions C02_xref_table_any_sectioning.
 Print Assumptions C02_objstm_expand.
+Print Assumptions C02_filler_any.
+Print Assumptions C02_name_any_spelling.
+Print Assumptions C02_hex_string_any_spelling.
+Print Assumptions C02_integer_any_spelling.
+Print Assumptions C02_example_spellings.
 Print Assumptions C02_example_stream.
 Print Assumptions C02_example_objstm.
 Print Assumptions C02_example_table.
